@@ -134,7 +134,7 @@ def oracle_perm(case):
 
 
 # ------------------------------------------------------------------ (b) history machine
-REQS = [(0.05, 16), (0.21, 64), (0.37, 7), (0.49, 128), (0.11, 2700), (0.3, 1600)]   # incl. single segments shorter than N=3000
+REQS = [(0.05, 16), (0.21, 64), (0.37, 7), (0.49, 128), (0.11, 2700), (0.3, 1600), (0.33, 64), (0.12, 16)]   # incl. single segments shorter than N=3000
 
 
 class AnalyzerHistory(TracedMachine):
@@ -195,7 +195,13 @@ class AnalyzerHistory(TracedMachine):
             self._fresh = {}
         if key not in self._fresh:
             an = self.fresh()
-            ref = an.compute() if key == "full" else an.compute_single_bin(REQS[key[1]][0] * self.fs, L=REQS[key[1]][1])
+            if key == "full":
+                ref = an.compute()
+            elif key[0] == "plan":          # single-bin request at the frequency and segment length of plan bin key[1]
+                p = an.plan()
+                ref = self.fresh().compute_single_bin(float(p["f"][key[1]]), L=int(p["L"][key[1]]))
+            else:
+                ref = an.compute_single_bin(REQS[key[1]][0] * self.fs, L=REQS[key[1]][1])
             names = ["f", "r", "b", "L", "K", "navg", "D", "O", "XX", "YY", "XY", "S12", "S2", "M2", "compute_t"]
             raw = {k: copy.deepcopy(getattr(ref, k)) for k in names}
             raw["D"] = [np.asarray(d) for d in raw["D"]]
@@ -249,6 +255,18 @@ class AnalyzerHistory(TracedMachine):
         self.did_single = True
         fb, L = REQS[i]
         self._store(self.an.compute_single_bin(fb * self.fs, L=L), ("single", i))
+
+    @precondition(lambda self: self.an is not None)
+    @rule(k=st.integers(0, 40))
+    def single_at_plan_length(self, k):
+        self.step("single_at_plan_length", k=k)
+
+    def do_single_at_plan_length(self, k):
+        """a single-bin request whose segment length is one the full plan also uses (shared per-L state)"""
+        self.did_single = True
+        p = self.fresh().plan()
+        j = k % len(p["f"])
+        self._store(self.an.compute_single_bin(float(p["f"][j]), L=int(p["L"][j])), ("plan", int(j)))
 
     @precondition(lambda self: self.an is not None)
     @rule(t=st.integers(1, 16))
@@ -319,5 +337,5 @@ PARTS = [
     Part("permutations", perm_case, oracle_perm, n_quick=80, n_thorough=800),
     MachinePart("history", AnalyzerHistory, n_quick=50, n_thorough=300, steps=40),
 ]
-QUOTAS = {"part:sweep": {"quick": 25, "thorough": 500}, "part:permutations": {"quick": 80, "thorough": 4000},
+QUOTAS = {"part:sweep": {"quick": 25, "thorough": 250}, "part:permutations": {"quick": 80, "thorough": 4000},
           "part:history": {"quick": 25, "thorough": 600}}
